@@ -7,6 +7,7 @@ The shims are bound *locally* into the library modules (module globals `random`,
 from __future__ import annotations
 
 import contextlib
+import functools
 import itertools
 import math
 import random as _real_random
@@ -95,6 +96,7 @@ def _decode_mixed(c: int, spans: list[int]) -> list[int]:
 
 
 # ---------------------------------------------------------------- permutation families
+@functools.lru_cache(maxsize=256)
 def perm_family(n: int) -> list[tuple[int, ...]]:
     """all n! for n <= PERM_FULL_MAX, else identity, reversal, adjacent transpositions, rotations"""
     if n <= PERM_FULL_MAX:
@@ -114,6 +116,7 @@ def perm_family(n: int) -> list[tuple[int, ...]]:
     return out
 
 
+@functools.lru_cache(maxsize=256)
 def flip_family(e: int) -> list[tuple[int, ...]]:
     if e <= FLIP_FULL_MAX:
         return list(itertools.product((0, 1), repeat=e))
